@@ -63,6 +63,23 @@ def r2(ctx, rep):
         rep.check(ok, f"push-guarded:{n['l'] - f['l'] if False else len(pushes)}", "adding a sort key to a SELECT is allowed only under `if !self.main_relation` (CTEs): in the main relation it would appear as an extra result column",
                   file=f["file"], line=n["l"], fn=f["path"])
     rep.check(len(pushes) >= 1, "push-sites", "expected the CTE sort-key push in fold_sql_transforms", file=f["file"], line=f["l"], fn=f["path"])
+    # a key pushed into a CTE's projection is invisible to the consumers' `*` bookkeeping (translate_wildcards works from
+    # original_cids) unless the id is also recorded somewhere: it must flow to a second sink in the same block
+    for n in pushes:
+        blk = par.get(id(n))
+        while blk is not None and blk.get("k") != "block":
+            blk = par.get(id(blk))
+        arg = show(n["a"][0]) if n["a"] else "?"
+        others = []
+        for st in (blk or {}).get("s", []):
+            if st is n:
+                continue
+            if st.get("k") == "macro" and st["n"].startswith("log"):
+                continue
+            if any(x.get("k") == "path" and x["p"] == arg for x in walk(st)):
+                others.append(show(st, maxdepth=5))
+        rep.check(bool(others), "sort-key-leaks-through-star", f"`select.push({arg})` adds a helper sort column to a CTE and records it nowhere else: a consumer that selects `*` from that CTE "
+                  "returns the helper as an extra result column, also on dialects with SELECT * EXCLUDE", file=f["file"], line=n["l"], fn=f["path"])
 
 
 def r3(ctx, rep):
@@ -113,6 +130,105 @@ def r5(ctx, rep):
     rep.check(ok, "inferred-name", "the inferred name is the last part of a plain column reference (nothing for expressions)", file=f["file"], line=f["l"], fn=f["path"])
 
 
+def r6(ctx, rep):
+    rep.rule("C05.R6", "a pending star's exclusion set is recorded before the star is replaced and before the list is returned", floor=2)
+    syn = ctx.syn
+    f = syn.fn("gen_projection::translate_wildcards", crate="prqlc")
+
+    def is_flush(n):
+        return n.get("k") == "call" and last_seg(show(n["f"])) == "exclude" and n["a"] and "star" in show(n["a"][0])
+
+    n_assign = 0
+    for blk in walk(f["body"]):
+        if blk.get("k") != "block":
+            continue
+        for i, st in enumerate(blk["s"]):
+            if st.get("k") == "assign" and show(st["lhs"]) == "star":
+                n_assign += 1
+                before = blk["s"][:i]
+                fl = [j for j, b in enumerate(before) if is_flush(b)]
+                ok = bool(fl) and not any(b.get("k") == "assign" and show(b["lhs"]) == "star" for b in before[fl[-1] + 1:])
+                rep.check(ok, f"flush-before-replace:{n_assign}", "`star = Some(..)` replaces the pending star: its remaining columns (`in_star`) must first be recorded with `exclude(&mut star, &mut excluded)`, "
+                          "otherwise `a.* EXCLUDE (x), b.*` is emitted as `a.*, b.*` and the excluded column reappears", file=f["file"], line=st["l"], fn=f["path"])
+    rep.check(n_assign >= 1, "replace-sites", f"expected the `star = Some(..)` replacement in translate_wildcards, found {n_assign}", file=f["file"], line=f["l"], fn=f["path"])
+    body = f["body"]["s"]
+    tail_i = max(i for i, st in enumerate(body) if st.get("k") in ("tuple", "return") or i == len(body) - 1)
+    rep.check(any(is_flush(b) for b in body[max(0, tail_i - 2):tail_i]), "flush-before-return", "the last pending star must be recorded right before `(output, excluded)` is returned", file=f["file"], line=f["l"], fn=f["path"])
+
+
+def r7(ctx, rep):
+    rep.rule("C05.R7", "`select !{..}` removes a known column only when the whole qualified identifier matches", floor=1)
+    syn = ctx.syn
+    f = syn.fn("Lineage::apply_assign", crate="prqlc")
+    found = 0
+    for m in matches_of(f["body"]):
+        if show(m["e"]) != "e":
+            continue
+        for arm in m["arms"]:
+            if not show(arm["pat"]).startswith("LineageColumn::Single"):
+                continue
+            b = arm["body"]
+            if b.get("k") == "block":
+                b = tail_expr(b)
+            found += 1
+
+            def base(x):
+                while x is not None and x.get("k") in ("mcall", "ref", "paren", "un") and (x.get("k") != "mcall" or x["m"] in ("as_ref", "clone", "as_deref")):
+                    x = x["r"] if x.get("k") == "mcall" else x["e"]
+                return x
+            ok = b is not None and b.get("k") == "bin" and b["op"] == "==" and base(b["lhs"]).get("k") == "path" and base(b["rhs"]).get("k") == "path" \
+                and {show(base(b["lhs"])), show(base(b["rhs"]))} == {"name", "e_name"}
+            rep.check(ok, "exclude:single-vs-single", f"an excluded column must match the column's whole identifier (`name == e_name`, input name included); found `{show(b, maxdepth=8)}`: "
+                      "comparing a part of it (the bare column name) also removes the same-named column of the other join input", file=f["file"], line=arm["l"], fn=f["path"])
+    rep.check(found == 1, "exclude:site", f"expected one Single-vs-Single comparison in the exclusion closure of apply_assign, found {found}", file=f["file"], line=f["l"], fn=f["path"])
+
+
+def r8(ctx, rep):
+    rep.rule("C05.R8", "select items are de-duplicated by their whole (qualified) identifier, never by a part of it", floor=2)
+    syn = ctx.syn
+    f = syn.fn("gen_projection::deduplicate_select_items", crate="prqlc")
+    n_ins = 0
+    for m in matches_of(f["body"]):
+        for arm in m["arms"]:
+            pt = show(arm["pat"], maxdepth=8)
+            if "CompoundIdentifier" not in pt:
+                continue
+            bound = [n["n"] for n in walk(arm["pat"]) if n.get("k") == "p_ident"]
+            for n in walk(arm["body"]):
+                if n.get("k") == "mcall" and n["m"] == "insert" and n["a"]:
+                    n_ins += 1
+                    a = n["a"][0]
+                    while a.get("k") == "mcall" and a["m"] in ("clone", "to_vec", "to_owned"):
+                        a = a["r"]
+                    whole = a.get("k") == "path" and a["p"] in bound
+                    rep.check(whole, "dedupe-key:compound", f"`{show(n, maxdepth=6)}`: the key under which a `table.column` item counts as already selected must be the whole identifier ({bound}); "
+                              "a key made of its parts drops `y.b` after `x.a, x.b, y.a`", file=f["file"], line=n["l"], fn=f["path"])
+    rep.check(n_ins >= 1, "dedupe-key:site", f"expected the `seen.insert(..)` of the CompoundIdentifier arm in deduplicate_select_items, found {n_ins}", file=f["file"], line=f["l"], fn=f["path"])
+
+
+def r9(ctx, rep):
+    rep.rule("C05.R9", "column names taken from a relation's definition keep their position (never collected into a value-ordered or hashed container)", floor=2)
+    syn = ctx.syn
+    n = 0
+    for name in ("lowering::try_extract_sql_columns", "lowering::tuple_fields_to_relation_columns"):
+        fs = syn.find_fns(name, crate="prqlc")
+        if len(fs) != 1:
+            rep.bad(f"order:{name}", f"{name} not found")
+            continue
+        f = fs[0]
+        n += 1
+        bad = []
+        for x in walk(f["body"]):
+            if x.get("k") == "mcall" and x["m"] in ("sorted", "sorted_by", "sorted_by_key", "sort", "sort_by", "sort_by_key", "sort_unstable", "rev"):
+                bad.append(f".{x['m']}()")
+            if x.get("k") == "mcall" and x["m"] == "collect" and any(w in (x.get("tf") or "") for w in ("BTreeSet", "BTreeMap", "HashSet", "HashMap")):
+                bad.append(f".collect::<{x['tf']}>()")
+            if x.get("k") == "local" and any(w in (x.get("ty") or "") for w in ("BTreeSet", "BTreeMap", "HashSet", "HashMap")) and "has_" not in show(x["pat"]):
+                bad.append(f"let {show(x['pat'])}: {x.get('ty')}")
+        rep.check(not bad, f"order:{name}", f"{name} passes the relation's column names through {bad}: the columns of the relation are then exposed in that container's order, not in the order of the definition "
+                  "(`from s\"SELECT z, c, m FROM t\"` gave c, m, z)", file=f["file"], line=f["l"], fn=f["path"])
+
+
 def run(ctx, rep):
-    for r in (r1, r2, r3, r4, r5):
+    for r in (r1, r2, r3, r4, r5, r6, r7, r8, r9):
         rep.guard(r, ctx)
